@@ -232,6 +232,10 @@ func SpecMatch(pattern string, hasWild bool, s string) bool {
 //@ func Subscriber.CID
 //@   trusted
 //@   assigns nothing
+//@ func Conn.CID
+//@   trusted
+//@   ensures result == recv.CID()
+//@   assigns nothing
 //@ func codec.Requester.CID
 //@   trusted
 //@   assigns nothing
@@ -384,6 +388,21 @@ func SpecMatch(pattern string, hasWild bool, s string) bool {
 //@ closure (*ResourceSubscription).handleResetResource#5
 //@   requires rs != nil
 //@   assert[C03,C12] rs.processResetGetResponse#2: !rs.resetting
+//@   safety[C15]
+
+//@ func mq.Unsubscriber.Unsubscribe
+//@   trusted
+//@   assigns nothing
+
+// The token-reset fan-out set: a connection is a member from AddConn until RemoveConn.
+//@ func (*Cache).AddConn
+//@   requires c != nil && c.conns != nil && conn != nil
+//@   ensures[C10,C11] has(c.conns, conn.CID()) && c.conns[conn.CID()] == conn
+//@   safety[C15]
+//@ func (*Cache).RemoveConn
+//@   requires c != nil && conn != nil
+//@   ensures[C10,C11] !has(c.conns, conn.CID())
+//@   assigns elems(c.conns)
 //@   safety[C15]
 
 //@ func (*Cache).Subscribe
